@@ -75,10 +75,12 @@ def gen_utilities(rng, streams, kind=None):
     dt = rng.choice([0.0, 5.0, 10.0])
     us = []
 
+    mixed_dt = rng.random() < 0.25          # utilities with different contributions
+
     def util(name, typ, ts, glide):
         tt = ts if glide == 0 else (ts - glide if typ == "Hot" else ts + glide)
         return {"name": name, "type": typ, "t_supply": float(ts), "t_target": float(tt), "heat_flow": 0.0,
-                "dt_cont": dt, "htc": 1.0, "price": float(rng.choice([10, 40, 100]))}
+                "dt_cont": (rng.choice([0.0, 5.0, 10.0, 20.0]) if mixed_dt else dt), "htc": 1.0, "price": float(rng.choice([10, 40, 100]))}
     if kind in ("outside", "ladder", "mixed"):
         us.append(util("HPS", "Hot", hi + 40, rng.choice([0, 0, 10])))
         us.append(util("CW", "Cold", lo - 40, rng.choice([0, 0, 5])))
